@@ -43,7 +43,8 @@ def step (s : St) (line : String) : St × String :=
     | none => ({ cfg := cfg }, "start err")
     | some r => ({ cfg := cfg, r := r, ok := true }, "start " ++ observe r.n.prod.store.height r.n [])
   | "mempool" =>
-    match Flow.opStep s.cfg s.r (.mempool (o.list "txs")) with
+    let op : Flow.Op := if o.str "mode" = "drain" then .mempoolDrain (o.list "txs") else .mempool (o.list "txs")
+    match Flow.opStep s.cfg s.r op with
     | some r => ({ s with r := r }, "ok")
     | none => ({ s with ok := false }, "start err")
   | "drain" =>
